@@ -378,8 +378,8 @@ def jobs(tier):
                 if culprit not in remote:
                     continue
                 for kind in ('raise', 'die_before', 'die_after', 'die_any') + (('reset_before',) if (name == 'tb2' and lazy) or not q else ()):
-                    if len(t['types']) > 2 and kind in ('die_any', 'reset_before'):
-                        continue     # an exit at every idle moment of a three-simulator run does not finish within the budget
+                    if len(t['types']) > 2 and kind in ('die_any', 'reset_before', 'raise'):
+                        continue     # these do not finish within the budget in a three-simulator run (all message orders)
                     for cache in ((True,) if (q or len(t['types']) > 2) else (True, False)):
                         # local simulators of a mixed scenario answer asynchronously
                         cfg = {'until': 3, 'K': 2, 'cache': cache, 'lazy': lazy, 'D': 0, 'sync': [], 'salt': 0, 'remote': remote, 'rst': kind != 'raise'}
